@@ -5,6 +5,7 @@ import Oracle.CacheEngine
 import Oracle.DispatchEngine
 import Oracle.ClaimEngine
 import Oracle.FsPathEngine
+import Oracle.TokenEngine
 
 def main (args : List String) : IO UInt32 := do
   match args with
@@ -15,6 +16,7 @@ def main (args : List String) : IO UInt32 := do
   | ["dispatch"] => Oracle.DispatchEngine.run; return 0
   | ["claim"] => Oracle.ClaimEngine.run; return 0
   | ["fspath"] => Oracle.FsPathEngine.run; return 0
+  | ["token"] => Oracle.TokenEngine.run; return 0
   | _ =>
     IO.eprintln "usage: cedar_oracle <engine>   (one op per stdin line, one reply per line)"
     return 2
